@@ -10,7 +10,8 @@
 
     Proved here, for the manifest states C10's proof covers (every history of
     add / remove / lookup / hasPrefix / store / reload inside [disciplined],
-    after its first Store, no collision among the saved payloads):
+    incl. Stores with size callbacks, after its first successful Store, no collision among the
+    saved payloads):
     loading succeeds, and
     (a) the node references are addresses of saved payloads,
     (b) every saved payload's address is a node reference,
@@ -24,6 +25,13 @@ Require Aurora.C09.Model.
 Module C9 := Aurora.C09.Model.
 
 Definition all_zero (e : list N) : bool := forallb (N.eqb 0) e.
+
+(** C10's lemmas are section-closed over [addr], [kg] and whichever of the two length
+    hypotheses their proofs use; [c10 l X] instantiates those whatever the subset is, so that
+    this file does not depend on that detail. *)
+Ltac c10 l ad k al kl X :=
+  first [ pose proof (l ad k al kl) as X | pose proof (l ad k kl) as X
+        | pose proof (l ad k al) as X | pose proof (l ad k) as X ].
 
 Section Load.
 Variable rid : list N -> C9.ref.      (* reference bytes -> the chunk model's reference *)
@@ -160,7 +168,7 @@ Proof.
   pose proof (Hrel (log ++ new1) (incl_refl _)) as Hrel1.
   set (n1 := set_forks t (Some fs')).
   assert (Hkeys : map fst fs' = map fst fs) by (eapply Forall2_keys; eassumption).
-  destruct (marshal_unmarshal kg n1 fs') as [bytes [Hm Hun]].
+  destruct (marshal_unmarshal kg n1 fs') as [bytes [Hm Hun0]].
   { reflexivity. }
   { unfold keys_sorted. rewrite Hkeys. exact Hs. }
   { subst n1. simpl. destruct Hrbs as [H|[H _]]; rewrite H; lia. }
@@ -172,6 +180,9 @@ Proof.
       { destruct Hrbs as [H|[_ H]]; [exact H|]. rewrite Hfs in H. discriminate H. }
       rewrite Hr32. apply (kids_child_ok addr kg addr_len _ _ _ Hrel1).
       intros [k [pre c]] Hin. destruct (Hall k pre c (In_fget _ k (pre, c) Hs Hin)) as [? [? [? ?]]]. auto. }
+  assert (Hun : forall m, unmarshal m bytes = (unmarshalled kg n1 fs' m, None))
+    by (first [exact Hun0 | apply Hun0]).
+  clear Hun0.
   unfold save_self. fold n1. rewrite Hm.
   eexists. exists (st_put st1 (addr bytes) bytes), (new1 ++ [bytes]), (addr bytes).
   rewrite app_assoc. split; [reflexivity|]. split; [|split].
@@ -330,7 +341,7 @@ Lemma first_store_q : forall s f, inv1 s f ->
   exists s' a, step addr kg s OStore = (s', BRef a) /\ inv2q (ms_log s') s' f.
 Proof.
   intros s f Hinv.
-  destruct (first_store addr kg addr_len kg_len s f Hinv) as [s' [a [Hstep Hinv2]]].
+  c10 first_store addr kg addr_len kg_len X. destruct (X s f Hinv) as [s' [a [Hstep Hinv2]]]. clear X.
   exists s', a. split; [exact Hstep|]. split; [exact Hinv2|].
   intros Hnc a' Hlast.
   destruct s as [root st log last]. destruct Hinv as [[Hok [Hloc [Hrbs Hnv]]] [Hst [Hlog [Hlast0 [Hf0 Hden]]]]].
@@ -380,15 +391,17 @@ Proof.
   destruct o; cbn [op_disciplined] in Hdisc.
   - destruct Hdisc as [Hx _]. discriminate Hx.
   - destruct Hdisc as [Hx _]. discriminate Hx.
-  - destruct (lookup_inv2 addr kg kg_len L s f p Hinv Hnc) as [s' [Hs Hinv']]. rewrite Hs.
+  - c10 lookup_inv2 addr kg addr_len kg_len X. destruct (X L s f p Hinv Hnc) as [s' [Hs Hinv']]. clear X. rewrite Hs.
     destruct (step_readonly_fields _ _ _ _ Hs I) as [E1 [_ E3]].
     specialize (IH L s' f (inv2q_transfer L s s' f Hq Hinv' E1 E3) Hd Hnc). destruct (run addr kg s' h). exact IH.
-  - destruct (has_prefix_inv2 addr kg kg_len L s f p Hinv Hnc) as [s' [t [Hs [Hinv' _]]]]. rewrite Hs.
+  - c10 has_prefix_inv2 addr kg addr_len kg_len X. destruct (X L s f p Hinv Hnc) as [s' [t [Hs [Hinv' _]]]]. clear X. rewrite Hs.
     destruct (step_readonly_fields _ _ _ _ Hs I) as [E1 [_ E3]].
     specialize (IH L s' f (inv2q_transfer L s s' f Hq Hinv' E1 E3) Hd Hnc). destruct (run addr kg s' h). exact IH.
-  - destruct (store_inv2 addr kg kg_len L s f Hinv) as [a [Hs _]]. rewrite Hs.
+  - c10 store_inv2 addr kg addr_len kg_len X. destruct (X L s f Hinv) as [a [Hs _]]. clear X. rewrite Hs.
     specialize (IH L s f Hq Hd Hnc). destruct (run addr kg s h). exact IH.
-  - destruct (reload_inv2 addr kg L s f Hinv) as [s' [Hs Hinv']]. rewrite Hs.
+  - c10 storecb_inv2 addr kg addr_len kg_len X. destruct (X L s f budget Hinv) as [a [Hs _]]. clear X. rewrite Hs.
+    specialize (IH L s f Hq Hd Hnc). destruct (run addr kg s h). exact IH.
+  - c10 reload_inv2 addr kg addr_len kg_len X. destruct (X L s f Hinv) as [s' [Hs Hinv']]. clear X. rewrite Hs.
     destruct (step_readonly_fields _ _ _ _ Hs I) as [E1 [_ E3]].
     specialize (IH L s' f (inv2q_transfer L s s' f Hq Hinv' E1 E3) Hd Hnc). destruct (run addr kg s' h). exact IH.
 Qed.
@@ -401,25 +414,28 @@ Proof.
   induction h as [|o h IH]; intros s f Hinv Hd Hnc; [left; exact Hinv|].
   destruct Hd as [Hdom [Hdisc Hd]]. cbn [run spec_run fold_left] in *.
   destruct o; cbn [orb is_store] in Hd.
-  - destruct (add_inv1 addr kg s f p e m Hinv Hdom Hdisc) as [s' [Hs Hinv']]. rewrite Hs in *.
+  - c10 add_inv1 addr kg addr_len kg_len X. destruct (X s f p e m Hinv Hdom Hdisc) as [s' [Hs Hinv']]. clear X. rewrite Hs in *.
     specialize (IH s' _ Hinv' Hd). destruct (run addr kg s' h). apply IH. exact Hnc.
-  - destruct (remove_inv1 addr kg s f p Hinv Hdisc) as [s' [b [Hs Hinv']]]. rewrite Hs in *.
+  - c10 remove_inv1 addr kg addr_len kg_len X. destruct (X s f p Hinv Hdisc) as [s' [b [Hs Hinv']]]. clear X. rewrite Hs in *.
     specialize (IH s' _ Hinv' Hd). destruct (run addr kg s' h). apply IH. exact Hnc.
-  - rewrite (lookup_inv1 addr kg s f p Hinv) in *.
+  - c10 lookup_inv1 addr kg addr_len kg_len X. rewrite (X s f p Hinv) in *. clear X.
     specialize (IH s _ Hinv Hd). destruct (run addr kg s h). apply IH. exact Hnc.
-  - rewrite (has_prefix_inv1 addr kg s f p Hinv) in *.
+  - c10 has_prefix_inv1 addr kg addr_len kg_len X. rewrite (X s f p Hinv) in *. clear X.
     specialize (IH s _ Hinv Hd). destruct (run addr kg s h). apply IH. exact Hnc.
   - destruct (first_store_q s f Hinv) as [s' [a [Hs Hinv']]]. rewrite Hs in *.
     right.
     assert (Hsi : store_inv addr (ms_st s') (ms_log s')).
     { destruct Hinv' as [[t [a' [_ [_ [_ [_ [_ [_ [_ [_ [_ Hsi]]]]]]]]]]] _]. exact Hsi. }
-    destruct (run_store_inv addr kg h s' Hsi) as [_ [new Hlog]].
+    c10 run_store_inv addr kg addr_len kg_len X. destruct (X h s' Hsi) as [_ [new Hlog]]. clear X.
     pose proof (run_phase2_q h (ms_log s') s' f Hinv' Hd) as H2.
     destruct (run addr kg s' h) as [s2 bs]. cbn [fst] in *.
     rewrite Hlog in Hnc. specialize (H2 (no_collision_app _ _ _ Hnc)).
     assert (Hl2 : ms_log s2 = ms_log s').
     { destruct H2 as [[t [a' [_ [_ [_ [_ [_ [_ [_ [_ [Hl _]]]]]]]]]]] _]. exact Hl. }
     rewrite Hl2. exact H2.
+  - cbn [op_disciplined] in Hdisc. destruct Hdisc as [Hx|Hb]; [discriminate Hx|].
+    c10 rejected_store_inv1 addr kg addr_len kg_len X. destruct (X s f budget Hinv Hb) as [s' [Hs Hinv']]. clear X. rewrite Hs in *.
+    specialize (IH s' _ Hinv' Hd). destruct (run addr kg s' h). apply IH. exact Hnc.
   - cbn [op_disciplined] in Hdisc. discriminate Hdisc.
 Qed.
 
@@ -468,16 +484,17 @@ Proof.
   exact (manifest_loads rid addr kg Ha Hk enc h a Hd Hnc Hl).
 Qed.
 
-(** a concrete history inside the domain: two files, one with metadata, then Store *)
+(** a concrete history inside the domain: two files, one with metadata, a Store with a size
+    callback that rejects (budget 5 bytes) in between, Store, a callback Store afterwards *)
 Definition ex_md : meta := [([67; 116]%N, [116; 120; 116]%N)].
 Definition ex_history : history :=
-  [OAdd [97]%N (repeat 1%N 32) []; OAdd [98; 47; 99]%N (repeat 2%N 32) ex_md; OStore].
+  [OAdd [97]%N (repeat 1%N 32) []; OStoreCb 5; OAdd [98; 47; 99]%N (repeat 2%N 32) ex_md; OStore; OStoreCb 100000].
 Lemma ex_history_ok : in_proved_domain ex_history.
 Proof.
   unfold in_proved_domain, ex_history. cbn [disciplined].
   assert (Hmd : md_ok ex_md) by (split; [reflexivity | vm_compute; discriminate]).
   repeat split; try discriminate; try reflexivity; try apply md_ok_nil; try exact Hmd;
-    try (repeat constructor; unfold is_byte; lia).
+    try (repeat constructor; unfold is_byte; lia); try (right; reflexivity); try (left; reflexivity).
 Qed.
 
 (** the example at C10's toy address function: hypotheses hold, the stored manifest loads *)
